@@ -103,8 +103,25 @@ def damage(fr: bytes, rnd):
 def adversarial_stream(rnd):
     """Arbitrary bytes dense in sync characters, truncated and damaged frames (C01/C04)."""
     out = bytearray()
+    seen = []
     for _ in range(rnd.randrange(1, 8)):
-        k = rnd.randrange(8)
+        k = rnd.randrange(10)
+        if k >= 8 and seen:
+            # a repeat of an earlier intact frame, damaged only in its payload or only in its trailer
+            f = bytearray(rnd.choice(seen))
+            if k == 8 and len(f) > 6:
+                f[3 + rnd.randrange(len(f) - 6)] ^= 1 << rnd.randrange(8)
+            else:
+                f[len(f) - 1 - rnd.randrange(3)] ^= 1 << rnd.randrange(8)
+            out += f
+            continue
+        if k >= 8:
+            k = 0
+        if k == 0 and rnd.random() < 0.7:
+            f = frame(good_payloads(rnd))
+            seen.append(f)
+            out += f
+            continue
         if k == 0:
             out += frame(good_payloads(rnd)) if rnd.random() < 0.7 else frame(bytes(rnd.randrange(256) for _ in range(rnd.choice([0, 0, 1, 2]))))
         elif k == 1:
